@@ -400,7 +400,7 @@ def applyOp (toks : List String) (w : World ByteArray) : Except Err (World ByteA
       | _, .link (.obj _) => .link (.foreign false)
       | f+1, .dir es => .dir (es.map fun (nm, n) => (nm, dangle f n))
       | _, n => n
-    (.ok { w with ws := dangle 64 w.ws }, #[])
+    (.ok { w with ws := dangle 400 w.ws }, #[])
   | ["rmcachedir"] => (if w.store.isEmpty then .ok w else .error .other, #[])
   | ["movecache"] =>
     -- the cache directory is moved and re-configured: every link into it dangles, the objects are all still there
